@@ -1357,12 +1357,59 @@ class SymSeq:
             return True
         return bool(b_and(*[unit_eq(a, b) for a, b in zip(self.items[-len(p.items):], p.items)]))
 
-    def m_hex(self):
+    def m_hex(self, *sep):
         from .stubs import s_hexlify
 
         if self.kind != "bytes":
             raise AttributeError("'str' object has no attribute 'hex'")
-        return s_hexlify(self).m_decode()
+        return s_hexlify(self, *sep).m_decode()
+
+    def m_partition(self, sep):
+        p = self.m_find(sep)
+        s = self._coerce(sep)
+        if p < 0:
+            empty = SymSeq(self.kind, [])
+            return (SymSeq(self.kind, list(self.items)).simplify(), empty.simplify(), empty.simplify())
+        m = len(s.items)
+        return (SymSeq(self.kind, self.items[:p]).simplify(), SymSeq(self.kind, self.items[p:p + m]).simplify(),
+                SymSeq(self.kind, self.items[p + m:]).simplify())
+
+    def m_rpartition(self, sep):
+        self._need_plain("rpartition")
+        s = self._coerce(sep)
+        n, m = len(self.items), len(s.items)
+        for p in range(n - m, -1, -1):
+            if bool(b_and(*[unit_eq(self.items[p + k], s.items[k]) for k in range(m)])):
+                return (SymSeq(self.kind, self.items[:p]).simplify(), SymSeq(self.kind, self.items[p:p + m]).simplify(),
+                        SymSeq(self.kind, self.items[p + m:]).simplify())
+        empty = SymSeq(self.kind, [])
+        return (empty.simplify(), empty.simplify(), SymSeq(self.kind, list(self.items)).simplify())
+
+    def m_removeprefix(self, p):
+        if self.m_startswith(p):
+            return SymSeq(self.kind, self.items[len(self._coerce(p).items):]).simplify()
+        return self
+
+    def m_removesuffix(self, p):
+        k = len(self._coerce(p).items)
+        if k and self.m_endswith(p):
+            return SymSeq(self.kind, self.items[:-k]).simplify()
+        return self
+
+    def m_format_map(self, mapping):
+        from .fmt import str_format
+
+        if not self.is_concrete():
+            raise Unsupported("format_map with a symbolic template")
+        return str_format(self.concrete(), (), dict(mapping))
+
+    def m_isascii(self):
+        if self.all_ascii():
+            return True
+        raise Unsupported("isascii on symbolic non-ascii text")
+
+    def m_center(self, *a):
+        raise Unsupported("center on symbolic text")
 
     def m_join(self, parts):
         return seq_join(self, parts)
